@@ -18,11 +18,15 @@ RULE = (
     "the thorough tier enumerates every key string of up to two keys. Oracle: reference model = successive stable sorts left "
     "to right with key (signed number, missing after all valid), list.sort reverse semantics for .rev; the result must be the "
     "same instances in exactly the model's order. Invalid keys (no variable letter, or a direction of the other variable) must "
-    "raise ValueError. Non-trivial: >= 3 elements with a tie on the last key and an error/undefined element."
+    "raise ValueError. A history sub-check interleaves sorts (key given as one string, as a list of string keys, or as a list led by a "
+    "plain function) with append / extend / += / + / insert / item assignment / pop / clear on the same container and requires every "
+    "sort to equal the model applied to the list as it then stands. Non-trivial: >= 3 elements with a tie on the last key and an "
+    "error/undefined element; for histories, a sort that follows an earlier sort and a change of the list."
 )
 ASSUMPTIONS = [
     "Rejection is asserted for keys that contain none of the letters i t r s and for a direction that belongs to the other variable; keys like 't.foo' are accepted by the library with a SyntaxWarning, which the statement does not address (DESIGN 6.8).",
     "The reverse= parameter of custom_sort is not passed together with string keys (documented as having no effect there).",
+    "A list passed as key= is the documented equivalent of the comma-separated string (applied left to right); a plain function in that list is applied like list.sort(key=...).",
 ]
 
 VARS = {"i": ["", ".num"], "t": ["", ".num", ".ns", ".sn"], "r": ["", ".num", ".ew", ".we"], "s": ["", ".num"]}
@@ -254,6 +258,117 @@ def oracle_bad(c):
     return [Failure("bad_key_accepted", f"custom_sort({key!r}) was accepted on a {c['kind']} list of {len(objs)}", key=key)]
 
 
+
+# operation histories: sorts interleaved with growth / replacement of the list ---------------------------
+# (a sort must be a function of the list as it is now, not of what it held at an earlier sort)
+
+GROW = ["append", "extend", "iadd", "add", "insert", "setitem", "pop", "iadd_container", "clear_and_refill"]
+STEP = st.one_of(
+    st.tuples(st.just("sort"), st.lists(st.sampled_from(ALL_KEYS), min_size=1, max_size=3), st.sampled_from(["string", "list_of_keys", "list_with_function"])),
+    st.tuples(st.sampled_from(GROW), st.lists(ELEM, min_size=1, max_size=3), st.integers(0, 12)),
+)
+HIST_CASE = st.fixed_dictionaries({
+    "kind": st.sampled_from(["tract", "trs"]),
+    "elems": st.lists(ELEM, min_size=0, max_size=6),
+    "steps": st.lists(STEP, min_size=2, max_size=7),
+})
+
+
+def oracle_history(c):
+    kind = c["kind"]
+    counter = [0]
+    uid = {}
+
+    def mk(e):
+        if kind == "trs":
+            return TRS(e)
+        t = Tract("NE/4", trs=e)
+        counter[0] += 1
+        uid[id(t)] = counter[0]
+        return t
+
+    Cont = TRSList if kind == "trs" else TractList
+    cont = Cont([mk(e) for e in c["elems"]])
+    fails = []
+    nsorts = 0
+    grown_since_sort = False
+    _last["hist_nt"] = False
+    for step in c["steps"]:
+        op = step[0]
+        if op == "sort":
+            keys, form = step[1], step[2]
+            before = list(cont)
+            recs = []
+            for o in before:
+                r = parse_trs(o.trs)
+                r["uid"] = uid.get(id(o), 0)
+                r["obj"] = id(o)
+                r["trs"] = o.trs
+                recs.append(r)
+            if form == "list_with_function":
+                # a plain function key in front of the string keys: documented to be applied first, like list.sort
+                want_recs = model_sort(sorted(recs, key=lambda r: r["trs"]), keys)
+                cont.custom_sort([lambda x: x.trs] + [k for k in keys])
+            elif form == "list_of_keys":
+                want_recs = model_sort(recs, keys)
+                cont.custom_sort(list(keys))
+            else:
+                want_recs = model_sort(recs, keys)
+                cont.custom_sort(",".join(keys))
+            got = [id(x) for x in cont]
+            ctx = dict(keys=keys, form=form, before=[r["trs"] for r in recs], got=[x.trs for x in cont], want=[r["trs"] for r in want_recs],
+                       sorts_before=nsorts, kind=kind)
+            if sorted(got) != sorted(r["obj"] for r in recs):
+                fails.append(Failure("history_not_a_permutation", f"sort #{nsorts + 1} ({form}, {keys}) lost or duplicated elements: {ctx['got']} from {ctx['before']}", **ctx))
+                return fails
+            if got != [r["obj"] for r in want_recs]:
+                fails.append(Failure(f"history_wrong_order:{form}", f"sort #{nsorts + 1} ({form}, {keys}) on {ctx['before']} gives {ctx['got']}, expected {ctx['want']}", **ctx))
+                return fails
+            if nsorts and grown_since_sort:
+                _last["hist_nt"] = True
+            nsorts += 1
+            grown_since_sort = False
+        else:
+            new = [mk(e) for e in step[1]]
+            pos = step[2]
+            n = len(cont)
+            if op == "append":
+                cont.append(new[0])
+            elif op == "extend":
+                cont.extend(new)
+            elif op == "iadd":
+                cont += new
+            elif op == "iadd_container":
+                cont += Cont(new)
+            elif op == "add":
+                cont = cont + new
+            elif op == "insert":
+                cont.insert(pos % (n + 1), new[0])
+            elif op == "setitem":
+                if n:
+                    cont[pos % n] = new[0]
+            elif op == "pop":
+                if n:
+                    cont.pop(pos % n)
+            elif op == "clear_and_refill":
+                while len(cont):
+                    cont.pop()
+                cont.extend(new)
+            grown_since_sort = True
+    return fails
+
+
+def classes_history(c):
+    out = {f"kind={c['kind']}"}
+    for st_ in c["steps"]:
+        out.add("op=" + st_[0])
+        if st_[0] == "sort":
+            out.add("form=" + st_[2])
+    if _last.get("hist_nt"):
+        out.add("sorted_again_after_change")
+    return sorted(out)
+
+
 SUBS = [
     Sub("random", oracle, strategy=lambda tier: CASE, nontrivial=lambda c: bool(_last.get("nt")), classes=classes, render=render,
         n={"quick": 1500, "thorough": 15000}, shards={"quick": 8, "thorough": 16},
@@ -263,4 +378,7 @@ SUBS = [
         shards={"quick": 4, "thorough": 16}),
     Sub("invalid_keys", oracle_bad, strategy=lambda tier: BAD_CASE, classes=lambda c: [f"key={c['key']}"], render=lambda c: c,
         n={"quick": 300, "thorough": 2000}, shards={"quick": 2, "thorough": 4}),
+    Sub("history", oracle_history, strategy=lambda tier: HIST_CASE, nontrivial=lambda c: bool(_last.get("hist_nt")), classes=classes_history,
+        render=lambda c: c, n={"quick": 800, "thorough": 8000}, shards={"quick": 4, "thorough": 16},
+        essential=("sorted_again_after_change", "form=list_of_keys", "form=list_with_function", "op=iadd", "op=setitem", "kind=trs", "kind=tract")),
 ]
